@@ -13,6 +13,7 @@ import MysyncModel.Replay.C16
 import MysyncModel.Replay.Mgr
 import MysyncModel.Replay.C09
 import MysyncModel.Replay.C08
+import MysyncModel.Replay.C04
 
 open Lean Replay
 
@@ -28,7 +29,8 @@ def handlers : List (String × Handler) := [
   ("c16repair", Replay.C16.handleRepair),
   ("mgrtick", Replay.Mgr.handleTick),
   ("c09h", Replay.C09.handle),
-  ("c08", Replay.C08.handle)
+  ("c08", Replay.C08.handle),
+  ("c04", Replay.C04.handle)
 ]
 
 partial def loop (h : IO.FS.Stream) (seen : Std.HashSet UInt64) (a : Acc) : IO Acc := do
